@@ -34,6 +34,15 @@ STMT = [
     ("unused let shadowed in a nested block", "unused-let/shadowed", ["let sh = add(1, 2)", "if bt { let sh = 59 p(sh) }"]),
     ("unused let of a literal shadowed by a used let", "unused-let/shadowed", ["let sh = 7", "let sh = 60", "p(sh)"]),
     ("unused let shadowing a used let", "unused-let/shadowed", ["let sh = 61", "p(sh)", "let sh = add(1, 2)", "p(62)"]),
+    # a local whose first use comes only after an inner binder of the same name has gone out of scope: everything is used, nothing to fix
+    ("local used after a match payload of the same name", "unused-let/after-inner-binder",
+     ["let sh = add(1, 2)", "match Some(1) { Some(sh) => { p(sh) } None => { p(45) } }", "p(sh)"]),
+    ("local used after a for variable of the same name", "unused-let/after-inner-binder", ["let sh = add(1, 2)", "for sh in [1] { p(sh) }", "p(sh)"]),
+    ("local used after a closure parameter of the same name", "unused-let/after-inner-binder",
+     ["let sh = add(1, 2)", "let f = fun(sh: Int) { p(sh) }", "f(2)", "p(sh)"]),
+    ("local used after a nested block's let of the same name", "unused-let/after-inner-binder", ["let sh = add(1, 2)", "if bt { let sh = 63 p(sh) }", "p(sh)"]),
+    ("local used after a destructuring payload of the same name", "unused-let/after-inner-binder",
+     ["let sh = add(1, 2)", "match Some((1, 2)) { Some((sh, w)) => { p((sh, w)) } None => { p(45) } }", "p(sh)"]),
     ("unused for variable", "unused-variable", ["for i in [1, 2] { p(42) }"]),
     ("unused closure parameter", "unused-variable", ["let f = fun(x: Int) { 43 }", "p(f(2))"]),
     ("unused match payload", "unused-variable", ["match Some(1) { Some(x) => { p(44) } None => { p(45) } }"]),
@@ -358,7 +367,7 @@ def run(ctx):
             d["cli_stdout"] = out[-2000:]
             raise Machinery(f"adapter drift: `garden check --fix --stdout` differs from the fix op for {sig}")
     # a literal with effectful elements may be left without an autofix, and a used import needs none: these are not required to fire
-    optional = {t["name"] for t in ts if "/effectful-element" in t["lint"] or "/after-use" in t["lint"]}
+    optional = {t["name"] for t in ts if "/effectful-element" in t["lint"] or "/after-use" in t["lint"] or "/after-inner-binder" in t["lint"]}
     dead = sorted(t for t, n in fired.items() if n == 0 and t not in optional)
     if dead and stride == 1:
         raise Machinery(f"vacuous: triggers that never produced a fix: {dead}")
